@@ -278,8 +278,12 @@ let rt_op (f : string array) =
         | Done rw -> head ^ " ok " ^ hex_of_bytes rw ^ " " ^ res_string parsed_resp_string (parse_response tl2 rw))
      | r -> "ok " ^ hex_of_bytes w ^ " " ^ res_string parsed_req_string r)
 
-(* e2e n <32 tokens per call>: every call is computed from its own tokens only *)
-let e2e_call (f : string array) : string =
+(* e2e n <33 tokens per call>: path (d direct | l longpoll, answered after FinishLongpoll | e longpoll, answered by
+   SendEmptyResponse | c longpoll, cancelled by the client) + the 32 tokens of an rt op; every call is computed from
+   its own tokens only *)
+let e2e_call (g : string array) : string =
+  let path = g.(0) in
+  let f = Array.sub g 1 32 in
   let tl2 = f.(2) = "1" in
   let e = parse_req_extra (Array.sub f 4 14) in
   match prepare_request (nd f.(0)) (nd f.(1)) e tl2 (bytes_of_hex f.(3)) with
@@ -289,11 +293,13 @@ let e2e_call (f : string array) : string =
      | Ok q ->
        let seen = Printf.sprintf "%s %s %s %s %s" (dn q.q_actor) (b01 q.q_tl2) (dn q.q_tag) (hex_of_bytes q.q_body)
            (req_extra_string q.q_extra) in
+       if path = "c" then seen ^ " => cancelled" else
        let re = parse_resp_extra (Array.sub f 20 12) in
-       (match resp_prepare q.q_id q.q_extra.rq_flags q.q_tl2 (bytes_of_hex f.(18)) (err_tok f.(19)) re with
-        | Refused s -> seen ^ " => " ^ s
-        | Failed _ -> "driver-error"
-        | Done rw ->
+       let respond = if path = "d" then respond_direct q else respond_longpoll q in
+       (match respond re (err_tok f.(19)) (bytes_of_hex f.(18)) with
+        | PNoResult -> seen ^ " => noresult"
+        | PTooLarge -> seen ^ " => toolarge"
+        | PWire rw ->
           (match parse_response tl2 rw with
            | Ok a ->
              let o = match a.a_out with
@@ -308,8 +314,17 @@ let e2e_op (f : string list) : string =
   | n :: rest ->
     let n = int_of_string n in
     let a = Array.of_list rest in
-    "ok " ^ String.concat " ; " (List.init n (fun i -> e2e_call (Array.sub a (32 * i) 32)))
+    "ok " ^ String.concat " ; " (List.init n (fun i -> e2e_call (Array.sub a (33 * i) 33)))
   | _ -> failwith "e2e: bad arguments"
+
+(* lpfields <name> ...: which of the named members belong to what the longpoll record saves (handlerContextFields) *)
+let hfield_name = function
+  | HF_actorID -> "actorID" | HF_requestExtraFieldsmask -> "requestExtraFieldsmask" | HF_reqTag -> "reqTag"
+  | HF_bodyFormatTL2 -> "bodyFormatTL2" | HF_noResult -> "noResult"
+
+let lpfields_op (names : string list) : string =
+  let saved = List.map hfield_name saved_fields in
+  "ok " ^ String.concat " " (List.map (fun n -> n ^ "=" ^ (if List.mem n saved then "1" else "0")) names)
 
 let run = function
   | "stream" :: f -> stream_op false f
@@ -324,6 +339,7 @@ let run = function
   | "resp" :: f -> resp_op (Array.of_list f)
   | "rt" :: f -> rt_op (Array.of_list f)
   | "e2e" :: f -> e2e_op f
+  | "lpfields" :: f -> lpfields_op f
   | l -> "driver-error unknown op " ^ String.concat " " l
 
 let () = each_line run
